@@ -25,6 +25,10 @@ VerifC16_DropRacesJoin VerifC16_SlowConsumerDropped
 VerifC17_TreeChangesBetweenRequests
 VerifC18_IdemHigh7 VerifC18_IdemBOM4 VerifC18_RoundTripStringContent VerifC18_RoundTripSigilNoSpace2 VerifC18_RoundTripFlag
 VerifC19_Watcher2 VerifC19_DevOverlappingReloads
+VerifC01_FloatCompare VerifC01_MatchArray VerifC01_HigherOrder VerifC01_Switch VerifC01_Pipe
+VerifC06_DeclarationFromSource VerifC07_DefaultsAcrossRequests VerifC07_RecursiveInput VerifC07_RecursiveReturn
+VerifC10_DecompileOneInstr VerifC12_MockProviderArguments VerifC13_BuilderReuse VerifC13_LongIdentifier
+VerifC14_Nested VerifC16_BroadcastRacesLeave VerifC16_JoinRacesLeave VerifC04_UnencodableResult
 VerifC20_Concurrent VerifC20_Tags3 VerifC20_ConcurrentEvictCallback VerifC20_ConcurrentDeleteByTag VerifC20_SetAlwaysReturns
 """.split())
 
@@ -48,6 +52,11 @@ for sid in sorted(os.listdir(os.path.join(V, "seeded"))):
     elif len(r) >= 4 and r[1] == "exit 1":
         hs = r[3].split()
         verdict = "detected (exit 1, %s)" % r[2]
+        if len(r) >= 5 and not r[4].startswith("wall"):
+            verdict += "; " + r[4]
+    elif len(r) >= 2 and r[1] == "exit 2":
+        hs = []
+        verdict = "NOT decided (exit 2)" + ("; " + r[4] if len(r) >= 5 else "")
     elif "does not apply" in r[1]:
         verdict, hs = "patch no longer applies to /repo's HEAD (a later repair changed the same lines)", []
     else:
